@@ -203,6 +203,8 @@ func threadType(t string) string {
 		return "(List UInt8)"
 	case strings.HasPrefix(t, "cb_"):
 		return "(List (Int64 × Int64))"
+	case strings.HasPrefix(t, "sk_"):
+		return "(List (List UInt8))"
 	case t == "w":
 		return "Go.World"
 	}
@@ -337,6 +339,13 @@ func (c *leafCtx) effectsOfCalls(n ast.Node, local map[string]bool, out map[stri
 			}
 			if _, isCb := c.callbacks[id.Name]; isCb && !local[id.Name] {
 				out["cb_"+id.Name] = true
+			}
+		}
+		if f, ok := ce.Fun.(*ast.SelectorExpr); ok {
+			if id, ok := f.X.(*ast.Ident); ok {
+				if _, isSink := c.sinks[id.Name]; isSink && !local[id.Name] {
+					out["sk_"+id.Name] = true
+				}
 			}
 		}
 		if li, recv := c.calleeInfo(ce); li != nil {
@@ -626,6 +635,9 @@ func (c *leafCtx) stmt7(s ast.Stmt, next func(string) string, ind string) string
 		return "0"
 	}
 	nl := "\n" + ind
+	if r, ok := c.stmt9(s, next, ind); ok {
+		return r
+	}
 	if r, ok := c.stmt8(s, next, ind); ok {
 		return r
 	}
@@ -1693,6 +1705,9 @@ func (c *leafCtx) constIndex(e ast.Expr) (int, bool) {
 
 // expr7 translates the expression forms of the seventh generation; ok = false: not one of them
 func (c *leafCtx) expr7(e ast.Expr, want string) (string, string, bool) {
+	if s, t, ok := c.expr9(e, want); ok {
+		return s, t, true
+	}
 	if s, t, ok := c.expr8(e, want); ok {
 		return s, t, true
 	}
@@ -2307,6 +2322,14 @@ func (c *leafCtx) translate7(ds *dirState, l leaf7Spec, fd *ast.FuncDecl, fset *
 			c.logVars[n] = true
 			return
 		}
+		if st := sinkType9(t); st != "" { // a sink: its method calls are recorded (leaf9.go)
+			if c.sinks == nil {
+				c.sinks = map[string]string{}
+			}
+			c.sinks[n] = st
+			c.logVars[n] = true // not counted as a parameter
+			return
+		}
 		if ot := opaqueType(t); ot != "" { // an opaque foreign object: its methods become function-typed externals (leaf8.go)
 			if c.opaque == nil {
 				c.opaque = map[string]string{}
@@ -2380,6 +2403,15 @@ func (c *leafCtx) translate7(ds *dirState, l leaf7Spec, fd *ast.FuncDecl, fset *
 	for _, n := range cbs {
 		c.threads = append(c.threads, "cb_"+n)
 		prologue += "let cb_" + n + " : " + threadType("cb_"+n) + " := []\n  "
+	}
+	var sks []string
+	for n := range c.sinks {
+		sks = append(sks, n)
+	}
+	sort.Strings(sks)
+	for _, n := range sks {
+		c.threads = append(c.threads, "sk_"+n)
+		prologue += "let sk_" + n + " : " + threadType("sk_"+n) + " := []\n  "
 	}
 	ret := ""
 	if fd.Type.Results != nil {
@@ -2556,6 +2588,8 @@ var leaves7 = []leaf7Spec{
 	{"net/nts", "CookiePlaceholder.unpack", "nts_CookiePlaceholder_unpack", "LeafNts"},
 	{"net/nts", "extHdr.unpack", "nts_extHdr_unpack", "LeafNts"},
 	{"net/nts", "DecodePacket", "nts_DecodePacket", "LeafNts"},
+	{"net/nts", "Packet.authenticate", "nts_Packet_authenticate", "LeafNts"},
+	{"net/nts", "ProcessResponse", "nts_ProcessResponse", "LeafNts"},
 	// eighth generation (leaf8.go): the clock object — recorded system calls with their argument
 	// values, pointers to immutable structs with identity, the expiry goroutine
 	{"driver/clocks", "setOffset", "clocks_setOffset", "LeafClocks"},
